@@ -72,5 +72,8 @@ TrimIsBuild == /\ eig = SubSeq(Spectrum, 1, Len(eig))
                /\ Len(trimmed) = Len(Spectrum) - Len(eig)
                /\ SumSeq(trimmed) = SumSeq(SubSeq(Spectrum, Len(eig) + 1, Len(Spectrum)))
 TieFree == \A f \in Fracs : \A k \in 1..Len(Spectrum) : f[1] * SumSeq(Spectrum) # SumSeq(SubSeq(Spectrum, 1, k)) * f[2]
+\* complete-graph mode (VIEW without hist, no depth bound): every TRANSITION of the complete state graph is emitted as the
+\* history that reaches its source state (breadth-first, hence short) extended by that transition
+EmitTrans == CSVWrite("%1$s", <<ToJson(hist')>>, IOEnv.OUT_FILE)
 Emit == (Len(hist) = D) => CSVWrite("%1$s", <<ToJson(hist)>>, IOEnv.OUT_FILE)
 =======================================================================
